@@ -955,8 +955,8 @@ def make_torch():
     d['is_complex'] = lambda x: any(isinstance(e, CE) for e in _np.asarray(x).reshape(-1))
     d['zeros'] = lambda *n, **k: _full(_shape_args(n), const(0))
     d['ones'] = lambda *n, **k: _full(_shape_args(n), const(1))
-    d['zeros_like'] = lambda x, **k: _full(x.shape, const(0))
-    d['ones_like'] = lambda x, **k: _full(x.shape, const(1))
+    d['zeros_like'] = lambda x, **k: const(0) if isinstance(x, (E, CE, int, float)) else _full(x.shape, const(0))
+    d['ones_like'] = lambda x, **k: const(1) if isinstance(x, (E, CE, int, float)) else _full(x.shape, const(1))
     d['full_like'] = lambda x, v, **k: _full(x.shape, _fill_value(v))       # added for C11/C12
     d['full'] = lambda shape, v, **k: _full(shape, _fill_value(v))              # added for C11/C12
     d['eye'] = lambda n, **k: wrap(_np.eye(n, dtype=int))
